@@ -282,27 +282,34 @@ def build_image(r, trace=None):
         assert len(b) == e["size"]
         return b
 
-    def put_table(base, t, seq, mut):
+    ktmap = {}          # region name -> [[offset in table, kind (value | free | tailfree | zerotail), entry size]]
+
+    def put_table(base, t, seq, mut, name=None):
         im.put_hex(base, struct.pack("<HHHI", SIG_KT, t["idx"], seq, g.getrandbits(32)))
         off = 10
+        emap = ktmap.setdefault(name, [])
         for it in t["items"]:
             if isinstance(it, int):
                 im.put_hex(base + off, entry_bytes(ents[it], mut))
+                emap.append([off, "value", ents[it]["size"]])
                 off += ents[it]["size"]
             else:
                 n = max(21, it[1])
+                emap.append([off, "free", n])
                 im.put_hex(base + off, struct.pack("<HIHIIIB", 1 | (g.choice([0, 0, 0x100, 0x200])), n, g.getrandbits(16), g.getrandbits(32), g.getrandbits(32), g.getrandbits(32), g.getrandbits(8)))
                 im.put_pat(base + off + 21, n - 21, it[2] if len(it) > 2 else 0)
                 off += n
         if t["tail"] == "free":
             im.put_hex(base + off, struct.pack("<HIHIIIB", 1, t["size"] - off, 0, 0, g.getrandbits(32), 0, 0))
+            emap.append([off, "tailfree", t["size"] - off])
         elif t["tail"] == "zero":
+            emap.append([off, "zerotail", 0])
             im.put_pat(base + off + 21, t["size"] - off - 21, g.getrandbits(8) | 1)   # first 21 bytes stay zero: size==0 terminator
     for ti, t in enumerate(tables):
-        put_table(pos[f"kt{ti}"], t, t.get("seq", 1), False)
+        put_table(pos[f"kt{ti}"], t, t.get("seq", 1), False, f"kt{ti}")
     for di, d in enumerate(decoys):
         if d.get("kind") == "mut":
-            put_table(pos[f"dk{di}"], tables[d["of"]], d["seq"], True)
+            put_table(pos[f"dk{di}"], tables[d["of"]], d["seq"], True, f"dk{di}")
         else:
             im.put_hex(pos[f"dk{di}"], d["bytes"])
     # object tables
@@ -342,7 +349,8 @@ def build_image(r, trace=None):
     im.finish(max(size, im.size))
     if trace is not None:
         trace.update(pos=dict(pos), regs=dict(regs), ot_n=list(ot_n), tables=[(t["size"], t["tail"]) for t in tables],
-                     decoys=[(regs[f"dk{di}"], tables[d["of"]]["tail"] if d.get("kind") == "mut" else None) for di, d in enumerate(decoys)])
+                     decoys=[(regs[f"dk{di}"], tables[d["of"]]["tail"] if d.get("kind") == "mut" else None) for di, d in enumerate(decoys)],
+                     kt_entries={k: [list(x) for x in v] for k, v in ktmap.items()})
     return im, _truth(tree), _typed(tree)
 
 
@@ -352,6 +360,69 @@ def build(recipe):
     if im.size > (256 << 20):
         raise ValueError("image too large to materialise; use build_image()")
     return im.read_at(0, im.size), truth, typed
+
+
+# --------------------------------------------------------------------------- directed structural mutations
+
+KT_ENTRY_HDR, OT_HDR, OT_ENTRY = 21, 8, 18
+
+
+def struct_mutations(recipe):
+    """Directed single-field (and one two-field) mutations of the container structure of the file build_image(recipe) writes,
+    as [label, [[file offset, bytes hex], ...]]. Nothing here is random: every walk-driving field gets its edge values.
+      * every entry of every key table and of every table-shaped decoy (value entries, inline Free entries, the trailing Free
+        entry, the zero terminator): size := 0, 1, 20 (< entry header), exactly-to-the-end, one past the end, 2^31, 2^32-1;
+        type := Free (1) / Unknown (0, 2) keeping the size; type := Free together with size := 0 and size := 1
+      * every key table header: signature / index / sequence edge values
+      * every object table: entry count := 0, n+1, 2^32-1; every entry: type := 0..7, 0xFF; offset := 0, own table (self reference),
+        first object table, own offset + 1, file size - 1, file size, 2^63, 2^64-1; size := 0, 1, 9 (< table header), 10, 20, 2^31, 2^32-1;
+        allocated := 0 / 1 / 0xFF
+    The expectation for every one of them is only "the parser comes back" (C11)."""
+    tr = {}
+    im, _, _ = build_image(recipe, tr)
+    pos, regs = tr["pos"], tr["regs"]
+    out = []
+
+    def u(v, w):
+        return (v & ((1 << (8 * w)) - 1)).to_bytes(w, "little").hex()
+    for name, emap in sorted(tr["kt_entries"].items()):
+        base, tsize = pos[name], regs[name]
+        for off, kind, esz in emap:
+            a = base + off
+            if off + KT_ENTRY_HDR > tsize and kind != "zerotail":
+                continue
+            for v in sorted({0, 1, 20, tsize - off, tsize - off + 1, max(0, tsize - off - 1), 1 << 31, (1 << 32) - 1}):
+                if v != esz:
+                    out.append([f"{name}@{off}:{kind}:size={v}", [[a + 2, u(v, 4)]]])
+            for ty in (1, 0, 2, 0x0A, 0x101, 0xFF01):
+                out.append([f"{name}@{off}:{kind}:type={ty}", [[a, u(ty, 2)]]])
+            for v in (0, 1):
+                out.append([f"{name}@{off}:{kind}:type=1,size={v}", [[a, u(1, 2)], [a + 2, u(v, 4)]]])
+        out.append([f"{name}:sig=0", [[base, u(0, 2)]]])
+        out.append([f"{name}:idx=0", [[base + 2, u(0, 2)]]])
+        out.append([f"{name}:idx=ffff", [[base + 2, u(0xFFFF, 2)]]])
+        out.append([f"{name}:seq=ffff", [[base + 4, u(0xFFFF, 2)]]])
+    for k, n in enumerate(tr["ot_n"]):
+        base = pos[f"ot{k}"]
+        for v in sorted({0, 1, n + 1, max(0, n - 1), 1 << 16, (1 << 32) - 1} - {n}):
+            out.append([f"ot{k}:count={v}", [[base + 4, u(v, 4)]]])
+        out.append([f"ot{k}:sig=0", [[base, u(0, 4)]]])
+        for j in range(n):
+            a = base + OT_HDR + OT_ENTRY * j
+            oldt = im.read_at(a, 1)[0]
+            oldo = int.from_bytes(im.read_at(a + 5, 8), "little")
+            for ty in (0, 1, 2, 3, 4, 5, 6, 7, 0xFF):
+                if ty != oldt:
+                    out.append([f"ot{k}[{j}]:type={ty}", [[a, u(ty, 1)]]])
+                    if ty in (1, 2, 3, 6):
+                        out.append([f"ot{k}[{j}]:type={ty},alloc=1", [[a, u(ty, 1)], [a + 17, u(1, 1)]]])
+            for v in sorted({0, base, OT_OFF, oldo + 1, max(0, oldo - 1), a, im.size - 1, im.size, 1 << 63, (1 << 64) - 1} - {oldo}):
+                out.append([f"ot{k}[{j}]:offset={v}", [[a + 5, u(v, 8)]]])
+            for v in (0, 1, 9, 10, 20, 31, 1 << 31, (1 << 32) - 1):
+                out.append([f"ot{k}[{j}]:size={v}", [[a + 13, u(v, 4)]]])
+            for v in (0, 1, 0xFF):
+                out.append([f"ot{k}[{j}]:alloc={v}", [[a + 17, u(v, 1)]]])
+    return out
 
 
 # --------------------------------------------------------------------------- real code
